@@ -42,13 +42,15 @@ func (check typecheck) assignment(n *node, typ *itype, context string) error {
 		return n.cfgErrorf("invalid type in %s", context)
 	}
 	if n.typ.untyped {
+		ctyp := typ
 		if typ == nil || isInterface(typ) {
 			if typ == nil && n.typ.cat == nilT {
 				return n.cfgErrorf("use of untyped nil in %s", context)
 			}
-			typ = n.typ.defaultType(n.rval, check.scope)
+			// The constant takes its default type, which must then be assignable to the interface type.
+			ctyp = n.typ.defaultType(n.rval, check.scope)
 		}
-		if err := check.convertUntyped(n, typ); err != nil {
+		if err := check.convertUntyped(n, ctyp); err != nil {
 			return err
 		}
 	}
